@@ -19,6 +19,7 @@ type item struct {
 
 func runCase(c *Case) []item {
 	w := NewWorld(&c.Setup)
+	defer w.Close()
 	var items []item
 	for k := range c.Txs {
 		o := w.Exec(&c.Txs[k])
@@ -240,6 +241,10 @@ const Rule = "cases = fresh devnet world (custom ForkConfig, GALACTICA at block 
 	"opcode / self-destruct to another account or to themselves / nest through forwarders / call the energy builtin / clear storage for a refund), " +
 	"payer in {origin, VIP-191 delegator, sponsor, contract credit}, gas from below the intrinsic gas upward and at the block limit, block-ref with and " +
 	"without proved work or with a failing lookup; evaluation = one transaction; non-trivial = applied with at least 2 clauses started; distinct = hash of setup + tx prefix"
+
+const ChainRule = "; chains = the same generated state carried by block 1, then 2-5 blocks of 0-5 generated transactions packed by the real packer.Flow " +
+	"(Schedule / Adopt / Pack) across the GALACTICA height, block-level predicates (header gas used = sum of receipts <= limit; totals over all account leaves " +
+	"before / after each block; header base fee = recurrence on the parent) evaluated on the implementation"
 
 var Assumptions = []string{
 	"what a clause does inside the EVM is observed (gas left, refund counter, VM error through the public vm tracer; transfers / energy events from the receipt), not modelled (C10)",
